@@ -64,6 +64,12 @@ struct cliargs {
             if (c == -1) {
                 break;
             }
+            if (c != '?' && c != ':' && m.count(c)) {
+                // one value is kept per option: a second --modify-flags list would silently replace the first (and hide its errors)
+                fprintf(stderr, "%s: option -%c given more than once\n", argv[0], c);
+                m['?'] = "1";
+                continue;
+            }
             if (optarg) {
                 m[c] = optarg;
             } else {
